@@ -32,6 +32,26 @@ Theorem C16_uper_truncated_encoding :
 Proof. exact uper_truncation. Qed.
 Print Assumptions C16_uper_truncated_encoding.
 
+From Asn1V Require Props.C06 Props.C03 Props.C04.
+
+(** OER: every strict prefix of an encoder output is rejected with a decode error.
+    (statement = the type of [Asn1V.Props.C06.C06_oer_truncation]; written out in that file) *)
+Theorem C16_oer_truncation : ltac:(let T := type of Asn1V.Props.C06.C06_oer_truncation in exact T).
+Proof. exact Asn1V.Props.C06.C06_oer_truncation. Qed.
+Print Assumptions C16_oer_truncation.
+
+(** DER: every strict prefix of an encoder output is rejected with a decode error.
+    (statement = the type of [Asn1V.Props.C03.C03_der_truncation]; written out in that file) *)
+Theorem C16_der_truncation : ltac:(let T := type of Asn1V.Props.C03.C03_der_truncation in exact T).
+Proof. exact Asn1V.Props.C03.C03_der_truncation. Qed.
+Print Assumptions C16_der_truncation.
+
+(** BER: every strict prefix of an encoder output is rejected with a decode error.
+    (statement = the type of [Asn1V.Props.C04.C04_ber_truncation]; written out in that file) *)
+Theorem C16_ber_truncation : ltac:(let T := type of Asn1V.Props.C04.C04_ber_truncation in exact T).
+Proof. exact Asn1V.Props.C04.C04_ber_truncation. Qed.
+Print Assumptions C16_ber_truncation.
+
 (** The bit-level statement it rests on: prefix behaviour of the
     type-directed decoder. *)
 Theorem C16_uper_prefix_behaviour : forall numeric e fuel t, PB (dec numeric e fuel t).
